@@ -7,11 +7,20 @@ ASSUMPTIONS = []
 EXPLANATION = "symbolic execution of the real File.c wrappers over a contract model of stdio"
 US = ["Type_Scan.0:40", "Type_Scan.1:40", "strcmp.0:26", "vf_of.0:6", "vf_open_streams.0:6"]
 def F(name, op, tiers, nb=4, k=4, **kw):
-    return Ob("file.%s" % name, "C20/file_stream.c", defs=["OP=%s" % op, "NB=%d" % nb, "K=%d" % k, "VF_MAX=%d" % (nb + 2)], srcs_extra=["env_stdio.c"],
+    defs = ["OP=%s" % op, "NB=%d" % nb, "K=%d" % k, "VF_MAX=%d" % (nb + 2)]
+    if name.startswith("lifecycle."):
+        defs.append("OPSEQ=" + ",".join(name.split(".")[1]))
+    return Ob("file.%s" % name, "C20/file_stream.c", defs=defs, srcs_extra=["env_stdio.c"],
               unwind=max(nb, k) + 4, unwindset=US, checks=["bounds", "pointer"], tiers=tiers, object_bits=14, **kw)
+import itertools
+QSEQ = [(0, 0), (0, 1), (1,), (0, 1, 1), (0, 2, 3), (0, 3, 0), (2,), (0, 0, 1), (3,), (4,), (5,), (6,), (7,), (0, 1, 5), (0, 2, 2), (0, 1, 0)]
+ALLSEQ = QSEQ + [s_ for s_ in itertools.product((0, 1, 2, 3, 5), repeat=3) if s_ not in QSEQ]
 OBLIGATIONS = [
     F("roundtrip.nb4", "OP_ROUNDTRIP", ("quick", "thorough"), nb=4, timeout=900, desc="write/close/reopen/read round trip, 4 symbolic bytes, symbolic chunking and seek offset"),
-    F("lifecycle.k2", "OP_LIFECYCLE", ("probe",), k=2, timeout=900, desc="symbolic sequences of 3 stream operations with fopen/fclose failures"),
+] + [
+    F("lifecycle.%s" % "".join(str(x) for x in seq), "OP_LIFECYCLE", (("quick", "thorough") if seq in QSEQ else ("thorough",)), k=len(seq), timeout=1800,
+      desc="stream operation sequence %s (0 open, 1 close, 2 with, 3 write, 4 read, 5 tell, 6 seek+flush, 7 eof) with symbolic fopen/fclose failures" % (seq,))
+    for seq in ALLSEQ
 ]
 LEVEL_TEXT = ("Bounded model checking of the real File.c wrappers through the full dispatch over a contract model of stdio: symbolic bytes, chunkings and seek offsets; "
               "symbolic sequences of stream operations with fopen/fclose failures injected.")
